@@ -452,6 +452,28 @@ Proof.
   pose proof (Z.mod_pos_bound S (Z.of_nat n) ltac:(lia)). assert (T2 : 2 ^ 31 < two64) by reflexivity. lia.
 Qed.
 
+(* the same value for any association / order of the three summands: the argument T of the final % n is their sum mod 2^64 *)
+Lemma offset_value off n k T : (0 < n)%nat -> (off < n)%nat -> Z.of_nat n < 2 ^ 31 ->
+  T = (Z.of_nat off + Z.of_nat n + Z.rem k (Z.of_nat n)) mod two64 ->
+  Z.rem T (Z.of_nat n) mod two64 = Z.of_nat (new_offset off n k).
+Proof.
+  intros Pn Po Bn ->. unfold new_offset. rewrite Z2Nat.id by (apply Z.mod_pos_bound; lia).
+  rewrite <- Zplus_mod. set (S := (Z.of_nat off + Z.of_nat n + Z.rem k (Z.of_nat n)) mod two64).
+  assert (HS : 0 <= S) by (apply Z.mod_pos_bound; reflexivity).
+  rewrite Z.rem_mod_nonneg by lia. apply Z.mod_small.
+  pose proof (Z.mod_pos_bound S (Z.of_nat n) ltac:(lia)). assert (T2 : 2 ^ 31 < two64) by reflexivity. lia.
+Qed.
+
+Ltac offset_solve off n k HO HN HK :=
+  cbn [eval]; rewrite ?HO, ?HN, ?HK;
+  rewrite (norm_inrange I32 (Z.of_nat n)) by (cbn; unfold two31 in *; lia);
+  rewrite (binop_ok Rem I32 k (Z.of_nat n))
+    by (cbn; split; [lia | pose proof (Z.rem_bound_abs k (Z.of_nat n) ltac:(lia)); unfold two31 in *; lia]);
+  cbn [binop norm opZ];
+  destruct (Z.eqb_spec (Z.of_nat n) 0) as [?E0|_]; [lia|];
+  apply (f_equal Some); apply (offset_value off n k);
+    [lia | lia | lia | generalize (Z.rem k (Z.of_nat n)); intro; unfold two64; Z.div_mod_to_equations; lia].
+
 Definition seq1 (p : stmt) : stmt := match p with SSeq a _ => a | _ => SSkip end.
 Definition seq2 (p : stmt) : stmt := match p with SSeq _ b => b | _ => SSkip end.
 
@@ -600,7 +622,8 @@ Proof.
       with (cells := @nil idx) (s := s) as (s1 & E1 & S1 & K1); revgoals.
     1: { unfold x_body_2d, x_if_2d, src_translate_2d in E1. cbn [for_body seq1 if_then] in E1. rewrite E1. cbn [bind].
       destruct S1 as (F1 & P1 & B1). pose proof (frame2_of _ F1) as (N0 & N1 & M0 & M1 & C0 & C1 & O0 & O1).
-      erewrite exec_set; [| apply (offset_update s1 0 (g_ox g) (g_nx g) kx); try assumption; [apply P1|apply Hk]].
+      pose proof Hv as (_ & _ & _ & Hox & Hoy & Hoz & _). pose proof (proj1 P1) as HPx.
+      erewrite exec_set; [| offset_solve (g_ox g) (g_nx g) kx O0 N0 HPx].
       eexists; split; [reflexivity|]. apply St_after_x; [exact Hv|exact NZ|]. rewrite cells_x_2d. split; [exact F1|]. split; [exact P1|exact B1]. }
     all: try sem. all: try exact HSt. all: try exact HN1. all: try (split; assumption).
     + cbn. unfold z_at. rewrite Hd. reflexivity.
@@ -651,7 +674,8 @@ Proof.
         with (cells := @nil idx) (s := s) as (s1 & E1 & S1 & K1) end; revgoals.
     1: { rewrite E1. cbn [bind].
       destruct S1 as (F1 & P1 & B1). pose proof (frame2_of _ F1) as (N0 & N1 & M0 & M1 & C0 & C1 & O0 & O1).
-      erewrite exec_set; [| apply (offset_update s1 1 (g_oy g) (g_ny g) ky); try assumption; [apply P1|apply Hk]].
+      pose proof Hv as (_ & _ & _ & Hox & Hoy & Hoz & _). pose proof (proj1 (proj2 P1)) as HPy.
+      erewrite exec_set; [| offset_solve (g_oy g) (g_ny g) ky O1 N1 HPy].
       eexists; split; [reflexivity|]. apply St_after_y; [exact Hv|exact NZ|]. rewrite cells_y_2d. split; [exact F1|]. split; [exact P1|exact B1]. }
     all: try sem. all: try exact HSt. all: try exact HN1. all: try (apply Hk). all: try (intros s0 P0; apply P0).
     all: try (split; assumption).
@@ -846,7 +870,8 @@ Proof.
       with (cells := @nil idx) (s := s) as (s1 & E1 & S1 & K1); revgoals.
     1: { unfold x_ybody_3d, x_if_3d, src_translate_3d in E1. cbn [for_body seq1 if_then] in E1. rewrite E1. cbn [bind].
       destruct S1 as (F1 & P1 & B1). pose proof (frame3_of _ F1) as ((N0 & N1 & M0 & M1 & C0 & C1 & O0 & O1) & _).
-      erewrite exec_set; [| apply (offset_update s1 0 (g_ox g) (g_nx g) kx); try assumption; [apply P1|apply Hk]].
+      pose proof Hv as (_ & _ & _ & Hox & Hoy & Hoz & _). pose proof (proj1 P1) as HPx.
+      erewrite exec_set; [| offset_solve (g_ox g) (g_nx g) kx O0 N0 HPx].
       eexists; split; [reflexivity|]. apply St_after_x; [exact Hv|exact NZ|]. split; [exact F1|]. split; [exact P1|exact B1]. }
     all: try sem. all: try exact HSt. all: try exact H3N2. all: try (split; assumption).
     + intros cells0 s0 z S0 Z0 _ L0. apply x_ybody_3d_ok; assumption.
@@ -890,7 +915,8 @@ Proof.
       with (cells := @nil idx) (s := s) as (s1 & E1 & S1 & K1); revgoals.
     1: { unfold y_zbody_3d, y_if_3d, src_translate_3d in E1. cbn [for_body seq1 seq2 if_then] in E1. rewrite E1. cbn [bind].
       destruct S1 as (F1 & P1 & B1). pose proof (frame3_of _ F1) as ((N0 & N1 & M0 & M1 & C0 & C1 & O0 & O1) & _).
-      erewrite exec_set; [| apply (offset_update s1 1 (g_oy g) (g_ny g) ky); try assumption; [apply P1|apply Hk]].
+      pose proof Hv as (_ & _ & _ & Hox & Hoy & Hoz & _). pose proof (proj1 (proj2 P1)) as HPy.
+      erewrite exec_set; [| offset_solve (g_oy g) (g_ny g) ky O1 N1 HPy].
       eexists; split; [reflexivity|]. apply St_after_y; [exact Hv|exact NZ|]. split; [exact F1|]. split; [exact P1|exact B1]. }
     all: try sem. all: try exact HSt. all: try exact H3N2. all: try (split; assumption).
     + intros cells0 s0 z S0 Z0 _ L0. apply y_zbody_3d_ok; assumption.
@@ -912,7 +938,8 @@ Proof.
         with (cells := @nil idx) (s := s) as (s1 & E1 & S1 & K1) end; revgoals.
     1: { rewrite E1. cbn [bind].
       destruct S1 as (F1 & P1 & B1). pose proof (frame3_of _ F1) as (_ & N2 & M2 & C2 & O2).
-      erewrite exec_set; [| apply (offset_update s1 2 (g_oz g) (g_nz g) kz); try assumption; [apply Hkz, P1|apply Hk]].
+      pose proof Hv as (_ & _ & _ & Hox & Hoy & Hoz & _). pose proof (Hkz _ P1) as HPz.
+      erewrite exec_set; [| offset_solve (g_oz g) (g_nz g) kz O2 N2 HPz].
       eexists; split; [reflexivity|]. apply St_after_z; [exact Hv|exact NZ|]. split; [exact F1|]. split; [exact P1|exact B1]. }
     all: try sem. all: try exact HSt. all: try exact H3N2. all: try (apply Hk). all: try exact Hkz.
     all: try (split; assumption).
